@@ -19,6 +19,7 @@
  *   'b' open SDO block upload (domain)             'w' SDO block-upload start (A3h)
  *   'c' SDO client upload request (stays busy)
  *  several frames of one step are compared as a multiset; the error history 1003h is not compared
+ *   't' tick interrupt only (service without process)   'J' LSS configure node id
  *   'L' LSS switch to configuration state          'A' LSS activate bit timing (v ms) after configure
  *   'M' EMCY set error 0   'C' application timer (cyclic, v ticks)
  *  RST 130 reset communication / 129 reset node                               */
@@ -105,6 +106,8 @@ static void probe(int run, uint32_t k, char o)
     else if (o == 'h') { frame(0x700 + 0x22, 1, hb_state, 0, 0, 0, 0); }
     else if (o == 'g') { r->api = (uint32_t)CONmtGetHbEvents(&node.Nmt, 0x22); }
     else if (o == 'l') { frame(0x7E5, 8, 0x5E, 0, 0, 0, 0); }
+    else if (o == 's') { uint32_t n0 = env_lssstore_n; frame(0x7E5, 8, 0x04, 0x01, 0, 0, 0); env_tx_n = 0; frame(0x7E5, 8, 0x17, 0, 0, 0, 0);
+                         r->api = ((env_lssstore_n - n0) << 24) | ((uint32_t)env_lssstore_node << 16) | (env_lssstore_baud & 0xFFFF); }   /* LSS: configuration state, store configuration */
     else if (o == 'm') { COEmcySet(&node.Emcy, 0, 0); }
     else if (o == 'e') { r->api = (uint32_t)COEmcyCnt(&node.Emcy) | ((uint32_t)v1001 << 8); }   /* 1003h (history) is dictionary content, not compared */
     else if (o == 'c') { CO_CSDO *c = COCSdoFind(&node, 0); r->api = (c == 0) ? 0xFFu : (uint32_t)COCSdoRequestUpload(c, CO_DEV(0x2345, 6), cbuf, 4, cb, 5); }
@@ -160,6 +163,8 @@ void harness(void)
         uint32_t v = vals[s];
         env_tx_n = 0;
         if      (o == 'T') { env_tick(&node); }
+        else if (o == 't') { (void)COTmrService(&node.Tmr); }          /* tick interrupt served, processing still outstanding */
+        else if (o == 'J') { frame(0x7E5, 8, 0x11, 0x20, 0, 0, 0); }    /* LSS configure node id 20h (in configuration state) */
         else if (o == 'N') { nmt(1); }
         else if (o == 'S') { nmt(2); }
         else if (o == 'W') { sdo_wr(0x1017, 0, 2, v); }
